@@ -169,6 +169,21 @@ def check(model: Model, run: Run) -> None:
             arg_ok = loop is not None and apps[0].args and dotted(apps[0].args[0]) == dotted(loop.target)
             ok = terms == BOTH(code) and not weak and member and bool(arg_ok)
             detail = 'guards %s member-of-both %s' % (sorted(terms), member)
+        comps = [s for s in assigns.get(field, []) if isinstance(s, ast.Assign) and isinstance(s.value, ast.ListComp)]
+        if not apps and len(comps) == 1:
+            # the same intersection spelt as a comprehension: [x for x in <one side> if x in <other side>]
+            lc = comps[0].value
+            apps = [comps[0]]  # type: ignore[list-item]
+            terms, weak = guard_terms(comps[0])
+            member = False
+            if len(lc.generators) == 1 and len(lc.generators[0].ifs) == 1 and dotted(lc.elt) == dotted(lc.generators[0].target):
+                t = lc.generators[0].ifs[0]
+                if isinstance(t, ast.Compare) and len(t.ops) == 1 and isinstance(t.ops[0], ast.In) and dotted(t.left) == dotted(lc.elt):
+                    it_side = _var_side(neg, dotted(lc.generators[0].iter) or '', sides)
+                    in_side = _var_side(neg, dotted(t.comparators[0]) or '', sides)
+                    member = {it_side, in_side} == {'sent', 'recv'}
+            ok = terms == BOTH(code) and not weak and member
+            detail = 'comprehension, guards %s member-of-both %s' % (sorted(terms), member)
         resets = [s for s in assigns.get(field, []) if isinstance(s, ast.Assign) and isinstance(s.value, ast.List) and not s.value.elts]
         run.check(ok and len(resets) == 1, neg.qualname, 'self.%s = intersection (%s)' % (field, detail), neg.loc(apps[0]) if apps else neg.loc(), '%s must be reset then filled with the entries present in both %s capabilities' % (field, code))
     # hold time
@@ -605,6 +620,23 @@ def _r6_new(model: Model, run: Run) -> None:
                 g = flat_guards(f.node, s)
                 ok = ok and any(('neighbor.capability.' + flag) in norm(t) and pol for t, pol in g)
         run.check(ok, f.qualname, 'inserts %s under %s' % (got, ('neighbor.capability.' + flag) if flag else 'no condition'), f.loc(), 'the OPEN must advertise exactly what the configuration enables')
+    # which of the neighbor's lists (families / add-path families / extended next hop triples) each capability is filled from
+    ACCESSORS = {'families', 'addpaths', 'nexthops'}
+    WANT_LIST = {'_protocol': {'families'}, '_nexthop': {'nexthops'}, '_addpath': {'addpaths'}, '_graceful': {'families'}}
+    for helper in list(FLAGS) + ['_pathslimit']:
+        f = model.funcs.get(CAPS + '.' + helper)
+        if f is None:
+            continue
+        params = [a.arg for a in f.node.args.args]
+        nb = params[1] if len(params) > 1 else 'neighbor'
+        fl = Loc(model, f)
+        got = set()
+        for c in walk_no_nested(f.node):
+            if isinstance(c, ast.Call) and isinstance(c.func, ast.Attribute) and c.func.attr in ACCESSORS:
+                if fl.expand(c.func.value) == nb:
+                    got.add(c.func.attr)
+        want = WANT_LIST.get(helper, set())
+        run.check(got == want, f.qualname, 'filled from the neighbor\'s %s' % (sorted(got) or 'scalar settings only'), f.loc(), 'the capability must list what the configuration enables for it (%s), not another of the neighbor\'s lists: %s' % (sorted(want) or 'no list', 'ADD-PATH for a family the operator left out of add-path { } makes the peers exchange path identifiers nobody asked for' if helper == '_addpath' else 'the OPEN advertises what was not configured'))
     # the 2-octet AS written into the OPEN
     mo = model.func(OPEN + '.make_open')
     ok = 'asn.trans().pack_asn2()' in norm(mo.node)
